@@ -112,3 +112,36 @@ pub open spec fn vals<T: IsNone>(s: Seq<T>) -> Seq<Option<real>> { Seq::new(s.le
 // canonical nulls (DESIGN 5.4): a present value is never NaN
 pub open spec fn canon<T: IsNone>(v: T) -> bool { v.opt().is_some() ==> !v.opt().unwrap().is_nanv() }
 pub open spec fn canon_seq<T: IsNone>(s: Seq<T>) -> bool { forall|i: int| 0 <= i < s.len() ==> canon(#[trigger] s[i]) }
+
+// ---- exact (integer) instantiation: null-last comparators on Option<i64> (proved for the real impls by Kani, C15 sortcmp_opt_i64)
+pub open spec fn nl_cmp(a: Option<i64>, b: Option<i64>) -> core::cmp::Ordering {
+    match (a, b) {
+        (Some(x), Some(y)) => if x < y { core::cmp::Ordering::Less } else if x == y { core::cmp::Ordering::Equal } else { core::cmp::Ordering::Greater },
+        (None, None) => core::cmp::Ordering::Equal,
+        (None, Some(_)) => core::cmp::Ordering::Greater,
+        (Some(_), None) => core::cmp::Ordering::Less,
+    }
+}
+pub open spec fn nl_cmp_rev(a: Option<i64>, b: Option<i64>) -> core::cmp::Ordering {
+    match (a, b) {
+        (Some(x), Some(y)) => if x > y { core::cmp::Ordering::Less } else if x == y { core::cmp::Ordering::Equal } else { core::cmp::Ordering::Greater },
+        (None, None) => core::cmp::Ordering::Equal,
+        (None, Some(_)) => core::cmp::Ordering::Greater,
+        (Some(_), None) => core::cmp::Ordering::Less,
+    }
+}
+pub trait SortCmp: Sized {
+    fn sort_cmp(&self, other: &Self) -> (r: core::cmp::Ordering);
+    fn sort_cmp_rev(&self, other: &Self) -> (r: core::cmp::Ordering);
+}
+impl SortCmp for Option<i64> {
+    #[verifier::external_body]
+    fn sort_cmp(&self, other: &Self) -> (r: core::cmp::Ordering) ensures r == nl_cmp(*self, *other) { unimplemented!() }
+    #[verifier::external_body]
+    fn sort_cmp_rev(&self, other: &Self) -> (r: core::cmp::Ordering) ensures r == nl_cmp_rev(*self, *other) { unimplemented!() }
+}
+impl Cast<Option<i64>> for Option<i64> {
+    open spec fn cast_spec(self) -> Option<i64> { self }
+    #[verifier::external_body]
+    fn cast(self) -> Option<i64> { self }
+}
